@@ -303,3 +303,69 @@ Proof.
   rewrite (proj2 (p_c19_spec T [T; T; T; T])) by (repeat constructor).
   unfold T. rewrite corr19_model. reflexivity.
 Qed.
+
+(* ---------- a second family of runs: the same history transposed to ANOTHER Api (address prefix) ----------
+   Addresses of such runs differ from run (i) by construction, so they are compared AMONG THEMSELVES: the first
+   one (made alone in a fresh OS process) is the reference; the others were made in the main thread after apps
+   with the default prefix had run.  State hidden outside the App that is filled by a differently configured
+   instance (a memo of humanized addresses keyed without the prefix, ...) shows here, and in the runs of
+   [others] that were made after differently configured "polluter" apps.
+   Run numbers continue: others are 1..n, the reference of the family is n+1, its members n+2, ... *)
+Definition p_alt (alt : list (list iobs)) (k : N) : option N :=
+  match alt with [] => None | a0 :: rest => p_c19_from a0 rest k end.
+
+Definition all_same (alt : list (list iobs)) : Prop :=
+  match alt with [] => True | a0 :: rest => Forall (fun r => r = a0) rest end.
+
+Lemma p_alt_spec alt k : p_alt alt k = None <-> all_same alt.
+Proof. destruct alt as [|a0 rest]; cbn; [split; auto|]. apply p_c19_from_spec. Qed.
+
+Definition c19x (ce : case_env) (ck : list (N * bytes)) (h : list iop) (r0 : list iobs)
+           (others alt : list (list iobs)) : verdict :=
+  match p_c19 r0 others with
+  | Some c => PropFail c
+  | None =>
+      match p_alt alt (N.of_nat (length others) + 2) with
+      | Some c => PropFail c
+      | None => match corr19 ce ck h r0 init_inst 0 with Some k => Disagree k | None => Agree end
+      end
+  end.
+
+Lemma c19x_nil ce ck h r0 others : c19x ce ck h r0 others [] = c19 ce ck h r0 others.
+Proof. unfold c19x, c19. destruct (p_c19 r0 others); reflexivity. Qed.
+
+Lemma c19x_agree_sound ce ck h r0 others alt :
+  c19x ce ck h r0 others alt = Agree ->
+  Forall (fun r => r = r0) others /\ all_same alt /\
+  map io_out r0 = map fst (run_inst ce ck h init_inst) /\
+  map io_state r0 = map (fun p => i_chain (snd p)) (run_inst ce ck h init_inst).
+Proof.
+  unfold c19x. destruct (p_c19 r0 others) eqn:P; [discriminate|].
+  destruct (p_alt alt (N.of_nat (length others) + 2)) eqn:Q; [discriminate|].
+  destruct (corr19 ce ck h r0 init_inst 0) eqn:C; [discriminate|]. intros _.
+  apply p_c19_spec in P. apply p_alt_spec in Q. destruct (corr19_sound _ _ _ _ _ _ C) as [A [B _]]. auto.
+Qed.
+
+(* the oracle accepts the model, second family included: under ANY other configuration cfg j (address books of
+   another prefix, ...) the model's transcript of a history hj alone equals its transcript as instance j of any
+   schedule sgH of differently configured instances *)
+Lemma C19x_model_ok ce ck h h' sg sg' sgN k cfg sgH j :
+  interleave h h' sg -> interleave h' h sg' -> sideN k sgN = h ->
+  let T := model_obs (run_inst ce ck h init_inst) in
+  let T' := model_obs (run_inst (fst (cfg j)) (snd (cfg j)) (sideN j sgH) init_inst) in
+  c19x ce ck h T
+       [ T;
+         model_obs (side true (run2_inst ce ck sg (init_inst, init_inst)));
+         model_obs (side false (run2_inst ce ck sg' (init_inst, init_inst)));
+         model_obs (sideN k (runN_inst ce ck sgN (fun _ => init_inst))) ]
+       [ T'; model_obs (sideN j (runNh_inst cfg sgH (fun _ => init_inst))) ] = Agree.
+Proof.
+  intros H H' HN T T'. unfold c19x.
+  destruct (inst_independent ce ck h h' sg init_inst init_inst H) as [-> _].
+  destruct (inst_independent ce ck h' h sg' init_inst init_inst H') as [_ ->].
+  rewrite inst_independent_N, HN. fold T.
+  rewrite (proj2 (p_c19_spec T [T; T; T; T])) by (repeat constructor).
+  rewrite inst_independent_hetero. fold T'.
+  rewrite (proj2 (p_alt_spec [T'; T'] _)) by (cbn; repeat constructor).
+  unfold T. rewrite corr19_model. reflexivity.
+Qed.
